@@ -13,6 +13,7 @@ mod faults;
 mod fs;
 mod fscheck;
 mod gen;
+mod huge;
 mod mkfs;
 mod monitors;
 mod mount;
@@ -86,6 +87,11 @@ fn engine_of(prop: &str) -> &'static str {
     }
 }
 
+/// one C01 case in 64 is a huge-file history
+pub fn is_huge_seed(seed: u64) -> bool {
+    (seed >> 20) % 64 == 13 || std::env::var("VERIF_HUGE_ONLY").is_ok()
+}
+
 pub fn run_case_pub(prop: &str, seed: u64) -> CaseOutcome {
     run_case(prop, seed)
 }
@@ -97,6 +103,10 @@ fn run_case(prop: &str, seed: u64) -> CaseOutcome {
     if prop == "C06" && seed & 1 == 1 {
         // half of the C06 cases are generated / corrupted directory media rather than histories
         return dirmedia::dir_case("C06", seed, false);
+    }
+    if prop == "C01" && is_huge_seed(seed) {
+        // a slice of the C01 cases are huge-file histories (offsets beyond 2^31, the 4 GiB - 1 limit)
+        return huge::huge_case("C01", seed);
     }
     match engine_of(prop) {
         "fs-history" => fscheck::fs_case(prop, seed),
@@ -119,6 +129,9 @@ fn replay_case(prop: &str, case: &Value) -> Result<CaseOutcome, String> {
     if case.get("slots").is_some() {
         return dirmedia::dir_replay(prop_static(prop).unwrap(), case);
     }
+    if case.get("huge").is_some() {
+        return huge::huge_replay(prop_static(prop).unwrap(), case);
+    }
     match engine_of(prop) {
         "fs-history" => fscheck::fs_replay(prop, case),
         "fs-crash" => {
@@ -137,6 +150,9 @@ fn replay_case(prop: &str, case: &Value) -> Result<CaseOutcome, String> {
 }
 
 fn minimise_case(prop: &str, case: &Value, sig: &str) -> Value {
+    if case.get("huge").is_some() {
+        return huge::huge_minimise(prop_static(prop).unwrap(), case, sig);
+    }
     let eng = if case.get("slots").is_some() { "dir-media" } else { engine_of(prop) };
     match eng {
         "fs-history" => {
@@ -288,7 +304,8 @@ fn cmd_check(prop: &str, tier: &str) -> i32 {
                 return 2;
             }
         };
-        let path = write_replay(prop, seed, idx, &vv, engine_of(prop), &case, out.ev_hash);
+        let eng = if case.get("huge").is_some() { "fs-huge" } else if case.get("slots").is_some() { "dir-media" } else { engine_of(prop) };
+        let path = write_replay(prop, seed, idx, &vv, eng, &case, out.ev_hash);
         // replay in a fresh process
         let exe = std::env::current_exe().unwrap();
         let o = std::process::Command::new(exe).arg("replay").arg(&path).output();
